@@ -144,6 +144,12 @@ func (v verifHasher) deep(x reflect.Value, depth int) {
 		v.str("&")
 		v.deep(x.Elem(), depth+1)
 	case reflect.Struct:
+		if pkg := x.Type().PkgPath(); pkg == "sync" || pkg == "sync/atomic" {
+			// synchronisation state (a mutex word, a Once's done flag, a Pool's per-P caches) is
+			// not table content
+			v.str("<sync>")
+			return
+		}
 		fmt.Fprintf(v.h, "{%s:", x.Type().String())
 		for i := 0; i < x.NumField(); i++ {
 			v.str(x.Type().Field(i).Name)
@@ -206,21 +212,39 @@ func VerifTableFingerprint() uint64 {
 	v.named("UserInfo", UserInfoPercentEncodeSet)
 	v.named("Host", HostPercentEncodeSet)
 	v.named("defaultSpecialSchemes", defaultSpecialSchemes)
-	if dp, ok := defaultParser.(*parser); ok {
-		v.named("defaultParser", dp)
+	if o, ok := verifOptionsOf(defaultParser); ok {
+		v.str("defaultParser")
+		v.deep(o, 0)
 	}
 	return v.h.Sum64()
 }
 
-// VerifParserFingerprint hashes a Parser created by NewParser, all of its fields and
-// everything they point to (ok = false for any other implementation of the interface).
+// verifOptionsOf finds, through reflection, the configuration of a Parser created by
+// NewParser: its "opts" field (the option struct with the tables, sets and maps it points
+// to). Other fields a parser may have (memos, pools, locks) are working state, not tables.
+// If there is no field of that name, all fields are taken.
+func verifOptionsOf(p Parser) (reflect.Value, bool) {
+	x := reflect.ValueOf(p)
+	if !x.IsValid() || x.Kind() != reflect.Ptr || x.IsNil() || x.Elem().Kind() != reflect.Struct ||
+		x.Elem().Type().PkgPath() != reflect.TypeOf(PercentEncodeSet{}).PkgPath() {
+		return reflect.Value{}, false
+	}
+	if f := x.Elem().FieldByName("opts"); f.IsValid() {
+		return f, true
+	}
+	return x.Elem(), true
+}
+
+// VerifParserFingerprint hashes the configuration of a Parser created by NewParser and
+// everything it points to (ok = false for any other implementation of the interface).
 func VerifParserFingerprint(p Parser) (fp uint64, ok bool) {
-	pp, ok := p.(*parser)
+	o, ok := verifOptionsOf(p)
 	if !ok {
 		return 0, false
 	}
 	v := verifHasher{fnv.New64a()}
-	v.named("parser", pp)
+	v.str("parser")
+	v.deep(o, 0)
 	return v.h.Sum64(), true
 }
 
